@@ -51,9 +51,9 @@ structure OInv (t : Thread) : Prop where
 
 structure Inv (p : Params) (c : Config) : Prop where
   g : GInv p c.st
-  t : ∀ i t, c.ths[i]? = some t → t.spell = 0 → TInv p c.st i t
-  o : ∀ (i : Nat) (t : Thread), c.ths[i]? = some t → t.spell ≠ 0 → OInv t
-  pendOwner : ∀ m, c.st.pending = some m → ∃ t, c.ths[m.owner]? = some t ∧ t.spell = 0 ∧ t.pc.hasPending = true
+  t : ∀ i t, c.ths[i]? = some t → t.isMain = true → TInv p c.st i t
+  o : ∀ (i : Nat) (t : Thread), c.ths[i]? = some t → ¬ t.isMain = true → OInv t
+  pendOwner : ∀ m, c.st.pending = some m → ∃ t, c.ths[m.owner]? = some t ∧ t.isMain = true ∧ t.pc.hasPending = true
   okOwner : ∀ m, c.st.okMap = some m → ∃ t, c.ths[m.owner]? = some t ∧ t.res = some (.ok m)
 
 /-- A thread outside its critical section does not touch the store while somebody holds the claim. -/
@@ -459,6 +459,34 @@ theorem tstepO_out (st : Store) (t : Thread) (ho : OInv t) :
     · exact ⟨⟨_, rfl⟩, hkeep _, rfl⟩
   · exact ⟨hsame, hkeep _, rfl⟩
 
+theorem isMain_of_call {a b : Thread} (h : callOf a = callOf b) : a.isMain = b.isMain := by
+  have h1 := congrArg Call.spell h
+  have h2 := congrArg Call.poll h
+  simp only [callOf] at h1 h2
+  simp [Thread.isMain, h1, h2]
+
+/-- a call the claim does not serialise: a status poll, or a request with another spelling -/
+def tstepOut (v : Variant) (st : Store) (t : Thread) : Store × Thread :=
+  if t.poll then tstepP st t else tstepO v st t
+
+theorem tstepP_out (st : Store) (t : Thread) (ho : OInv t) :
+    (tstepP st t).1 = st ∧ OInv (tstepP st t).2 ∧ callOf (tstepP st t).2 = callOf t := by
+  unfold tstepP
+  split
+  · refine ⟨rfl, ⟨fun m hm => ?_, fun hm => ?_⟩, rfl⟩
+    · simp only [Option.some.injEq] at hm; split at hm <;> simp at hm
+    · simp only [Option.some.injEq] at hm; split at hm <;> simp at hm
+  · exact ⟨rfl, ⟨ho.noOk, ho.noRok⟩, rfl⟩
+
+theorem tstepOut_out (st : Store) (t : Thread) (ho : OInv t) :
+    (∃ l, (tstepOut .repaired st t).1 = { st with oclaims := l }) ∧ OInv (tstepOut .repaired st t).2 ∧
+    callOf (tstepOut .repaired st t).2 = callOf t := by
+  unfold tstepOut
+  split
+  · have := tstepP_out st t ho
+    exact ⟨⟨st.oclaims, by rw [this.1]⟩, this.2.1, this.2.2⟩
+  · exact tstepO_out st t ho
+
 theorem inv_th {p c} (i : Nat) (h : Inv p c) : Inv p (step .repaired p c (.th i)) := by
   simp only [step]
   cases hti : c.ths[i]? with
@@ -467,7 +495,7 @@ theorem inv_th {p c} (i : Nat) (h : Inv p c) : Inv p (step .repaired p c (.th i)
     simp only
     have hlt : i < c.ths.length := by
       rcases List.getElem?_eq_some_iff.mp hti with ⟨hl, _⟩; exact hl
-    by_cases hs : t.spell = 0
+    by_cases hs : t.isMain = true
     · have htm : tstep .repaired p c.st i t = tstepMain .repaired p c.st i t := by simp [tstep, hs]
       rw [htm]
       have hT := h.t i t hti hs
@@ -479,8 +507,8 @@ theorem inv_th {p c} (i : Nat) (h : Inv p c) : Inv p (step .repaired p c (.th i)
         rw [h1] at h2; simp at h2; subst h2
         rw [hti] at hto; simp at hto; subst hto; exact hpo
       have out := tstep_out h.g hT hp
-      have hsp : (tstepMain .repaired p c.st i t).2.spell = 0 := by
-        have := congrArg Call.spell out.call; simpa [callOf, hs] using this
+      have hsp : (tstepMain .repaired p c.st i t).2.isMain = true := by
+        rw [isMain_of_call out.call]; exact hs
       have hself : (c.ths.set i (tstepMain .repaired p c.st i t).2)[i]? = some (tstepMain .repaired p c.st i t).2 := by
         simp [hlt]
       refine ⟨out.ginv, ?_, ?_, ?_, ?_⟩
@@ -521,12 +549,12 @@ theorem inv_th {p c} (i : Nat) (h : Inv p c) : Inv p (step .repaired p c (.th i)
             exact ⟨_, hself, h2 m hpo⟩
           · exact ⟨to, by rw [List.getElem?_set_ne hij]; exact hto, hpo⟩
         · rw [h1] at hm; simp at hm; subst hm; subst h2; exact ⟨_, hself, h3⟩
-    · have htm : tstep .repaired p c.st i t = tstepO .repaired c.st t := by simp [tstep, hs]
+    · have htm : tstep .repaired p c.st i t = tstepOut .repaired c.st t := by simp [tstep, tstepOut, hs]
       rw [htm]
-      obtain ⟨⟨l, hst⟩, ho', hcall⟩ := tstepO_out c.st t (h.o i t hti hs)
-      have hsp : (tstepO .repaired c.st t).2.spell ≠ 0 := by
-        have := congrArg Call.spell hcall; simp only [callOf] at this; rw [this]; exact hs
-      have hself : (c.ths.set i (tstepO .repaired c.st t).2)[i]? = some (tstepO .repaired c.st t).2 := by
+      obtain ⟨⟨l, hst⟩, ho', hcall⟩ := tstepOut_out c.st t (h.o i t hti hs)
+      have hsp : ¬ (tstepOut .repaired c.st t).2.isMain = true := by
+        rw [isMain_of_call hcall]; exact hs
+      have hself : (c.ths.set i (tstepOut .repaired c.st t).2)[i]? = some (tstepOut .repaired c.st t).2 := by
         simp [hlt]
       rw [hst]
       refine ⟨ginv_oclaims l h.g, ?_, ?_, ?_, ?_⟩
@@ -685,13 +713,13 @@ theorem holdsCore_of_inv {p : Params} {c : Config} (h : Inv p c) :
         m.tup = (t.listener, t.laddr, p.tc, p.ta) ∧ b = c.st.maps.any (fun x => x.id == m.id) := by
     intro i t tp b hi ho
     obtain ⟨m, hm, h1, h2, _⟩ := oresOf_ok ho
-    have hs : t.spell = 0 := Classical.byContradiction (fun hs => (h.o i t hi hs).noOk m hm)
+    have hs : t.isMain = true := Classical.byContradiction (fun hs => (h.o i t hi hs).noOk m hm)
     have := (h.t i t hi hs).resOk m hm
     exact ⟨m, this.1, this.2.1, h1, this.2.2.1, this.2.2.2.1, h2⟩
   have hrk : ∀ (i : Nat) (t : Thread), c.ths[i]? = some t → oresOf c.st t = .rok → c.st.revDone = true ∧ t.kind = .revoke := by
     intro i t hi ho
     have hr := (oresOf_rok ho).1
-    have hs : t.spell = 0 := Classical.byContradiction (fun hs => (h.o i t hi hs).noRok hr)
+    have hs : t.isMain = true := Classical.byContradiction (fun hs => (h.o i t hi hs).noRok hr)
     exact (h.t i t hi hs).resRok hr
   have hmem : ∀ m, c.st.okMap = some m → m ∈ c.st.maps := by
     intro m hm
@@ -860,8 +888,10 @@ theorem calls_step {p : Params} (v : Variant) (c : Config) (e : Ev) :
         unfold tstep
         split
         rotate_left
-        · unfold tstepO
-          (repeat' split) <;> rfl
+        · split
+          · unfold tstepP; split <;> rfl
+          · unfold tstepO
+            (repeat' split) <;> rfl
         unfold tstepMain
         (repeat' split) <;> first
           | rfl
